@@ -547,13 +547,40 @@ func (s *clientSocket) onEvent(
 	decode parser.Decode,
 	sendAck ackSendFunc,
 ) (hasAckFunc bool) {
-	values, err := decode(handler.inputArgs...)
+	// With connection state recovery the server appends the offset of the packet
+	// (a string) as an extra, last argument of every event it can replay. It is
+	// not an argument of the handler: decode it into a slot of its own - placed
+	// before the acknowledgement function, which is never part of the packet.
+	inputArgs := handler.inputArgs
+	offsetIndex := -1
+	if _, ok := s.pid(); ok {
+		offsetIndex = len(inputArgs)
+		if ack, _ := handler.ack(); ack {
+			offsetIndex--
+		}
+		withOffset := make([]reflect.Type, 0, len(inputArgs)+1)
+		withOffset = append(withOffset, inputArgs[:offsetIndex]...)
+		withOffset = append(withOffset, reflect.TypeOf(""))
+		withOffset = append(withOffset, inputArgs[offsetIndex:]...)
+		inputArgs = withOffset
+	}
+
+	values, err := decode(inputArgs...)
 	if err != nil {
 		s.onError(wrapInternalError(err))
 		return
 	}
 
-	if len(values) == len(handler.inputArgs) {
+	if len(values) == len(inputArgs) {
+		if offsetIndex != -1 {
+			if offset := values[offsetIndex].Elem().String(); offset != "" {
+				// Set the lastOffset before calling the handler.
+				// An error can occur when the handler gets called,
+				// and we can miss setting the lastOffset.
+				s.setLastOffset(offset)
+			}
+			values = append(values[:offsetIndex:offsetIndex], values[offsetIndex+1:]...)
+		}
 		for i, v := range values {
 			if handler.inputArgs[i].Kind() != reflect.Ptr && v.Kind() == reflect.Ptr {
 				values[i] = v.Elem()
@@ -587,15 +614,6 @@ func (s *clientSocket) callEvent(
 	values []reflect.Value,
 	sendAck ackSendFunc,
 ) (hasAckFunc bool) {
-	// Set the lastOffset before calling the handler.
-	// An error can occur when the handler gets called,
-	// and we can miss setting the lastOffset.
-	_, ok := s.pid()
-	if ok && len(values) > 0 && values[len(values)-1].Kind() == reflect.String {
-		s.setLastOffset(values[len(values)-1].String())
-		values = values[:len(values)-1] // Remove offset
-	}
-
 	ack, _ := handler.ack()
 	if header.ID != nil && ack {
 		hasAckFunc = true
